@@ -15,6 +15,7 @@ mod npy;
 mod cli;
 mod io;
 mod stat;
+mod c17;
 
 use std::io::{BufRead, Write};
 
@@ -42,6 +43,7 @@ fn eval_line(ctx: &Ctx, line: &str) -> String {
             "c13" => c13::eval(*ctxp, &opn, &a),
             "io" => io::eval(*ctxp, &opn, &a),
             "st" => stat::eval(*ctxp, &opn, &a),
+            "pn" => c17::eval(*ctxp, &opn, &a),
             p @ ("c01" | "c02" | "c08" | "c09" | "c10" | "c11" | "c12") => {
                 let _ = p;
                 if opn.ends_with(".mem") { create::eval_mem(&a) }
@@ -103,6 +105,7 @@ fn main() {
                 "c12" => creategen::gen_c12(&ctx, &mut rng, &mut reqs),
                 "c03" => c03::gen(&ctx, &mut rng, &mut reqs),
                 "c13" => c13::gen(&ctx, &mut rng, &mut reqs),
+                "c17" => c17::gen(&ctx, &mut rng, &mut reqs),
                 "c06" => stat::gen_c06(&ctx, &mut rng, &mut reqs),
                 "c14" => stat::gen_c14(&ctx, &mut rng, &mut reqs),
                 "c07" => io::gen_c07(&ctx, &mut rng, &mut reqs),
